@@ -253,8 +253,26 @@ class InstrDict(dict):
         return dict.pop(self, k, *d)
 
 
+class NoSuchUpload(Exception):
+    """what S3 answers when a part, a completion or an abort names an upload that is not active"""
+
+
+class TransientError(Exception):
+    """an injected one-off failure of a storage call (throttling, 5xx, connection reset)"""
+
+
 class FakeS3:
+    """The storage service for one object.  Uploads are active, completed or aborted; only active
+    ones are listed.  With `strict` the service rejects parts / completions / aborts for uploads
+    that are not active (NoSuchUpload), as S3 does; without it dead ids are only recorded."""
+
     def __init__(self, sched: Optional[Sched] = None):
+        self.strict = False
+        self.active: List[str] = []
+        self.completed: List[str] = []
+        self.aborted: List[str] = []
+        self.faults: Dict[int, str] = {}  # thread -> "c" (its create call) / "u" (its upload / complete call)
+        self.fired: List[int] = []
         self.calls: List[str] = []
         self.ncreate = 0
         self.uploads: List[Tuple[int, str]] = []
@@ -265,30 +283,58 @@ class FakeS3:
     def sched(self) -> Sched:
         return CURRENT["sched"]
 
+    def _fault(self, kind: str):
+        tid = self.sched.current()
+        if tid is not None and self.faults.get(tid) == kind and tid not in self.fired:
+            self.fired.append(tid)
+            raise TransientError(f"injected failure of thread {tid}'s storage call")
+
+    def _live(self, uid):
+        if self.strict and uid not in self.active:
+            raise NoSuchUpload(uid)
+
+    def list_multipart_uploads(self, Bucket, Prefix):  # noqa: N803
+        self.sched.yield_point("list")
+        self.calls.append("list")
+        return {"Uploads": [{"UploadId": u, "Key": Prefix} for u in self.active]} if self.active else {}
+
     def abort_multipart_upload(self, Bucket, Key, UploadId):  # noqa: N803
         self.sched.yield_point("abort")
         self.calls.append(f"abort={UploadId}")
+        self._live(UploadId)
+        if UploadId in self.active:
+            self.active.remove(UploadId)
+            self.aborted.append(UploadId)
         return {}
 
     def create_multipart_upload(self, Bucket, Key, **kw):  # noqa: N803
         self.sched.yield_point("create")
+        self._fault("c")
         self.ncreate += 1
         uid = f"id{self.ncreate}"
         self.ids.append(uid)
+        self.active.append(uid)
         self.calls.append(f"create={uid}")
         return {"UploadId": uid}
 
     def upload_part(self, PartNumber, Body, Bucket, Key, UploadId):  # noqa: N803
         self.sched.yield_point("upload")
+        self._fault("u")
         self.calls.append(f"upload:{PartNumber}={UploadId or chr(34) * 2}")
-        self.uploads.append((PartNumber, UploadId))
         self.used_ids.append(UploadId)
+        self._live(UploadId)
+        self.uploads.append((PartNumber, UploadId))
         return {"ETag": f"etag{PartNumber}"}
 
     def complete_multipart_upload(self, Bucket, Key, UploadId, MultipartUpload):  # noqa: N803
         self.sched.yield_point("complete")
+        self._fault("u")
         self.calls.append(f"complete={UploadId or chr(34) * 2}")
         self.used_ids.append(UploadId)
+        self._live(UploadId)
+        if UploadId in self.active:
+            self.active.remove(UploadId)
+            self.completed.append(UploadId)
         return {"ETag": "final"}
 
 
@@ -469,6 +515,7 @@ class System:
                  (mpu.cancel()) or "crash" (nothing: task failure / interrupt before finalise)
         copies : how the per-worker copies are made ("pickle" | "deepcopy")
         chain  : thread i may start only when thread i-1 has returned
+        after  : {thread: [threads that must have ended first]} (e.g. the retry of a failed step)
         build_without_client : the writer is built while no client exists, then used on the cluster
         xnames : per worker {prefix: name} - the Variable / Lock names that worker's own interpreter
                  process computed (see `_xname`)
@@ -585,21 +632,29 @@ class System:
             self.writers.append(wr)
             return wr
 
-        for i, k in enumerate(kinds):
+        # "w1!c" / "f!u": the thread's create call, resp. its upload_part / complete call, raises once
+        base = [k.split("!")[0] for k in kinds]
+        self.s3.faults = {i: k.split("!")[1] for i, k in enumerate(kinds) if "!" in k}
+        for i, k in enumerate(base):
             if k == "f":
                 self.sched.spawn(lambda i=i: pick(i).finalise([{"PartNumber": 1, "ETag": "etag1"}]))
             else:
                 part = int(k[1:])
                 self.sched.spawn(lambda i=i, part=part: pick(i)(part, b"x" * part))
+        deps: Dict[int, List[int]] = {}
         if opts.get("gate"):
             # a finalise is given its parts by the writes: it cannot start before they returned
-            ws = [i for i, k in enumerate(kinds) if k != "f"]
-            for i, k in enumerate(kinds):
+            ws = [i for i, k in enumerate(base) if k != "f"]
+            for i, k in enumerate(base):
                 if k == "f":
-                    self.sched.gate[i] = lambda ws=ws: any(not self.sched.threads[j].finished for j in ws)
+                    deps.setdefault(i, []).extend(ws)
         if opts.get("chain"):
             for i in range(1, len(kinds)):
-                self.sched.gate[i] = lambda i=i: not self.sched.threads[i - 1].finished
+                deps.setdefault(i, []).append(i - 1)
+        for i, d in (opts.get("after") or {}).items():  # a retry starts when the failed attempt has ended
+            deps.setdefault(int(i), []).extend(d)
+        for i, d in deps.items():
+            self.sched.gate[i] = lambda d=d: any(not self.sched.threads[j].finished for j in d)
 
     def close(self):
         self.sched.abort()
@@ -659,6 +714,56 @@ class System:
             f"{','.join(self.sched.labels)} ; {','.join(calls)} ; {ids} ; {outs} ; "
             f"lock={'free' if h is None else h}"
         )
+
+
+SEQ_OPS = ["w", "f", "ca", "cA", "cc", "c1", "c2", "c3"]
+
+
+def run_seq(ops: List[str]) -> Dict[str, Any]:
+    """One shared in-process `MultiPartUpload` + writer over time: writes, finalise and every spelling
+    of `cancel` in sequence (no concurrency), against the strict storage service."""
+    import distributed
+    from odc.geo.cog import _s3
+
+    s3 = FakeS3()
+    s3.strict = True
+    CURRENT.update(sched=Sched(), s3=s3, cluster=Cluster(), local=True, xnames=None, wof=[])
+    saved = (distributed.get_client, distributed.Variable, distributed.Lock, _s3._state, _s3.Lock)  # pylint: disable=protected-access
+    distributed.get_client, distributed.Variable, distributed.Lock = fake_get_client, FakeVariable, FakeDLock
+    _s3._state, _s3.Lock = InstrDict(), FakeLock  # pylint: disable=protected-access
+    steps = []
+    try:
+        mpu = instr_mpu_class()("bucket", "some/key.tif")
+        writer = mpu.writer(dict(KW))
+        parts: List[Any] = []
+        part = 0
+        for op in ops:
+            n0, before = len(s3.calls), mpu.__dict__["_uid"]
+            try:
+                if op == "w":
+                    part += 1
+                    parts.append(writer(part, b"x" * part))
+                elif op == "f":
+                    writer.finalise(parts or [{"PartNumber": 1, "ETag": "etag1"}])
+                    parts = []
+                else:
+                    arg = {"ca": "all", "cA": ":ALL:", "cc": ""}.get(op, "id" + op[1:])
+                    mpu.cancel(arg)
+                    parts = []
+                res = "ok"
+            except NoSuchUpload:
+                res = "NoSuchUpload"
+            except Exception as e:  # pylint: disable=broad-except
+                res = type(e).__name__
+            steps.append({"op": op, "res": res, "before": before, "after": mpu.__dict__["_uid"],
+                          "calls": s3.calls[n0:], "active": list(s3.active)})
+        q = chr(34) * 2
+        srt = lambda l: "[" + ",".join(sorted(l, key=lambda u: int(u[2:]))) + "]"  # noqa: E731
+        text = (f"{','.join(st['res'] for st in steps)} ; {','.join(s3.calls)} ; uid={mpu.__dict__['_uid'] or q} ; "
+                f"active={srt(s3.active)} ; completed={srt(s3.completed)} ; aborted={srt(s3.aborted)}")
+    finally:
+        distributed.get_client, distributed.Variable, distributed.Lock, _s3._state, _s3.Lock = saved  # pylint: disable=protected-access
+    return {"steps": steps, "text": text}
 
 
 def run_schedule(kinds, workers, prefix: List[int], complete: bool = True,
